@@ -55,17 +55,18 @@ Proof.
            wc mx dt ops segs toyd0 WF SO AF CS).
 Qed.
 
-(* ---- refutation witnesses (per-message override) ------------------------------------------------------ *)
-(* negotiated window 15 with context takeover; "aa" shared, "bb" with compress=12, "cc" shared *)
+(* ---- per-message override ------------------------------------------------------------------------------------ *)
+(* negotiated window 15 with context takeover; "aa" shared, "bb" with compress=12, "cc" shared: regression for the
+   repaired defect (the shared compressor used to keep its history across the override and "cc" arrived as 05 05) *)
 Definition desync_cfg : wcfg := mkw false 15 false.
 Definition desync_ops : list sop := [Send OP_BINARY [97; 97] 0 0; Send OP_BINARY [98; 98] 12 0; Send OP_BINARY [99; 99] 0 0].
 
-Lemma desync_witness :
+Lemma desync_regression :
   let c := peer_cfg desync_cfg 0 false in
   let r := toy_wrun desync_cfg (wstate0 toyc) desync_ops in
-  forallb (op_wf c) desync_ops = true /\ all_fit c (wo_sent r) = true
-  /\ expect_all (wo_sent r) = Some [MBinary [97; 97]; MBinary [98; 98]; MBinary [99; 99]]
-  /\ fst (toy_feed_all c toy_reader0 [wo_wire r]) = [MBinary [97; 97]; MBinary [98; 98]; MBinary [5; 5]].
+  forallb (op_wf c) desync_ops = true /\ safe_overrides desync_cfg desync_ops = true /\ all_fit c (wo_sent r) = true
+  /\ toy_feed_all c toy_reader0 [wo_wire r] = ([MBinary [97; 97]; MBinary [98; 98]; MBinary [99; 99]], snd (toy_feed_all c toy_reader0 [wo_wire r]))
+  /\ rd_status (snd (toy_feed_all c toy_reader0 [wo_wire r])) = SPending.
 Proof. vm_compute. repeat split. Qed.
 
 (* nothing negotiated; one text message sent with compress=15 *)
